@@ -268,7 +268,11 @@ def _(E, p):
             rgrid=E.lst("rgrid_list", [rg, _rgrid(4)]), aim_weights=BeckeWeights(), store=True,
         )
     else:
-        mg = MolGrid.from_preset(atnums, atcoords, E.dct("preset", {8: "coarse", 1: "coarse"}), rgrid=E.dct("rgrid_dict", {8: rg, 1: _rgrid(4)}), store=False)
+        # (a None entry means "the default radial grid of that element")
+        kr, kp = (p // 3) % 4, (p // 12) % 3
+        rgs = E.dct("rgrid_dict", {8: rg, 1: _rgrid(4)}) if kr == 0 else E.dct("rgrid_dict_none", {8: rg, 1: None}) if kr == 1 else E.lst("rgrid_list", [None, _rgrid(4)]) if kr == 2 else rg
+        pre = E.dct("preset", {8: "coarse", 1: "coarse"}) if kp == 0 else "coarse" if kp == 1 else E.lst("preset_list", ["coarse", "medium"])
+        mg = MolGrid.from_preset(atnums, atcoords, pre, rgrid=rgs, store=False)
     return [mg, np.asarray(mg.indices, dtype=float)]
 
 
@@ -851,7 +855,13 @@ def _(E, p):
     from grid.poisson import solve_poisson_bvp
     from grid.rtransform import BeckeRTransform, InverseRTransform, LinearInfiniteRTransform
 
-    v = p % 9
+    v = p % 11
+    if v == 9:  # an element of the molecule is missing from the caller's dictionary of radial grids
+        atnums, atcoords = _two_atoms(E)
+        return [MolGrid.from_preset(atnums, atcoords, "coarse", rgrid=E.dct("rgrid_dict", {8: _rgrid(5)}))]
+    if v == 10:  # ... or from the dictionary of presets (detected after the first atom was built)
+        atnums, atcoords = _two_atoms(E)
+        return [MolGrid.from_preset(atnums, atcoords, E.dct("preset", {8: "coarse"}), rgrid=E.lst("rgrid_list", [_rgrid(5), _rgrid(4)]))]
     if v == 0:  # one degree sector too many
         return [AtomGrid.from_pruned(_rgrid(6), 1.0, E.lst("r_sectors", [0.5, 1.0]), E.lst("d_sectors", [3, 5, 7, 5]), center=E.arr("center", np.zeros(3)))]
     if v == 1:  # lists of different lengths for the atoms
